@@ -10,7 +10,7 @@ tmp="_CoqProject.new.$$"
 {
   echo "-R . Verif"
   echo "-arg -w -arg -notation-overridden,-deprecated-hint-without-locality,-deprecated-instance-without-locality"
-  ls lib/*.v gen/*.v c[0-9][0-9]/*.v 2>/dev/null | grep -v '/cases\|/zz_' | sort
+  ls lib/*.v gen/*.v c[0-9][0-9]/*.v 2>/dev/null | grep -v '/cases\|/zz_\|_dbg\.v\|/tmp_\|/scratch' | sort
 } > "$tmp"
 if ! cmp -s "$tmp" _CoqProject 2>/dev/null; then mv "$tmp" _CoqProject; else rm -f "$tmp"; fi
 if [ ! -f Makefile ] || [ _CoqProject -nt Makefile ]; then
